@@ -27,16 +27,15 @@ RECURSIVE AmpR(_, _, _, _)
 AmpR(small, big, k, kmax) == IF k > kmax \/ D!DLe(big, D!DScale(small, k)) THEN k ELSE AmpR(small, big, k + 1, kmax)
 Amp(small, big, kmax) == AmpR(small, big, 0, kmax)
 
-\* --- the triangle of C15, exactly -----------------------------------------------------------------
+\* --- the division-free definitions of GeomCore (whose theorems MCGeom checks on an integer lattice), on dyadics ------
+GC == INSTANCE GeomCore WITH NZero <- D!DZero, NOne <- D!DOne, NMul <- D!DMul, NAdd <- D!DAdd, NSub <- D!DSub,
+                             NNeg <- D!DNeg, NSgn <- D!DSign
 \* line through p0 with direction u; triangle (v0, v1, v2)
-TriNormal(v0, v1, v2) == CrossV(VSub(v1, v0), VSub(v2, v0))
+TriNormal(v0, v1, v2) == GC!TriNormal(v0, v1, v2)
 \* nd * hit,  with nd = Nn . u
-TriHitTimesNd(p0, u, v0, Nn) == VAdd(VScale(p0, DotV(Nn, u)), VScale(u, DotV(Nn, VSub(v0, p0))))
+TriHitTimesNd(p0, u, v0, Nn) == GC!TriHitTimesNd(p0, u, v0, Nn)
 \* numerators of the barycentric coordinates over the common denominator (Nn.Nn) nd^2
-TriBaryNum(H, nd, v0, v1, v2, Nn) ==
-    LET w0 == VSub(VScale(v0, nd), H)  w1 == VSub(VScale(v1, nd), H)  w2 == VSub(VScale(v2, nd), H)
-    IN  << DotV(Nn, CrossV(w1, w2)), DotV(Nn, CrossV(w2, w0)), DotV(Nn, CrossV(w0, w1)) >>
-
-\* --- the sphere quadratic  f(t) = A t^2 + 2 Bh t + C --------------------------------------------
-QuadAt(A, Bh, C, x) == D!DAdd(D!DMul(A, D!DSq(x)), D!DAdd(D!DScale(D!DMul(Bh, x), 1), C))
+TriBaryNum(H, nd, v0, v1, v2, Nn) == GC!TriBaryNum(H, nd, v0, v1, v2, Nn)
+\* the sphere quadratic  f(t) = A t^2 + 2 Bh t + C
+QuadAt(A, Bh, C, x) == GC!QuadAt(A, Bh, C, x)
 =============================================================================
